@@ -35,7 +35,7 @@ fcppt::shared_ptr<Type, Deleter>::shared_ptr(Other *const _ptr, Alloc const &_al
 template <typename Type, typename Deleter>
 template <typename Other>
 fcppt::shared_ptr<Type, Deleter>::shared_ptr(fcppt::weak_ptr<Other, Deleter> const &_other)
-    : impl_(_other)
+    : impl_(_other.std_ptr())
 {
 }
 
@@ -94,7 +94,7 @@ template <typename Other>
 fcppt::shared_ptr<Type, Deleter> &
 fcppt::shared_ptr<Type, Deleter>::operator=(fcppt::shared_ptr<Other, Deleter> const &_other)
 {
-  this->impl_ = _other.impl;
+  this->impl_ = _other.std_ptr();
 
   return *this;
 }
